@@ -32,7 +32,7 @@ import sys
 import time
 
 from .srcmodel import AnalysisError, AnchorMissing
-from .typestate import Interp, S, C, D, FL, FS, TUP, METH, OBJV, truth, Ctx, Result
+from .typestate import Interp, S, C, D, FL, FS, TUP, METH, OBJV, truth, Ctx, Result, EventBudgetExceeded
 
 SCOPE = ("Manager", "TrafficTimer", "Connector")
 ROLE_NAMES = ("LEADER", "FOLLOWER")
@@ -761,7 +761,12 @@ class DilExplorer:
             for name, f in self.events(j):
                 I.stack[:] = [name]
                 before = len(I.viol)
-                succ = f(j)
+                I.steps = 0
+                try:
+                    succ = f(j)
+                except EventBudgetExceeded:
+                    exhausted = False
+                    succ = []
                 if len(I.viol) > before:
                     for k in list(I.viol)[before:]:
                         I.viol[k].state_key = j.key()
